@@ -13,6 +13,7 @@ import (
 	"errors"
 	"fmt"
 	"net"
+	"sort"
 	"sync"
 	"testing"
 	"testing/synctest"
@@ -262,6 +263,29 @@ func runC17(l *evlog.Log, c *evlog.Case, cs *c17Case) {
 		return nil
 	})
 	defer func() {
+		// routing entries: by now both connections were closed (the deferred CloseWithError calls below
+		// run first); long after every closing period and idle timeout has passed, neither transport may
+		// still route a connection ID or hold a stateless reset token
+		time.Sleep(5 * time.Minute)
+		synctest.Wait()
+		for _, tr := range []struct {
+			name string
+			t    *quic.Transport
+		}{{"client", w.ClientTr}, {"server", w.ServerTr}} {
+			if tr.t == nil {
+				continue
+			}
+			cids, closed, tokens := quic.VerifRouting(tr.t)
+			l.Count("routing_tables_inspected", 1)
+			if len(cids) > 0 || tokens > 0 {
+				var ids []string
+				for id := range cids {
+					ids = append(ids, fmt.Sprintf("%x", id))
+				}
+				sort.Strings(ids)
+				viol("leak|routing-entries-after-closing-period|"+tr.name, "5 min (virtual) after both connections ended the %s transport still routes %d connection ID(s) %v (%d to closed-connection placeholders) and holds %d stateless reset token(s)", tr.name, len(cids), ids, closed, tokens)
+			}
+		}
 		w.Close()
 		time.Sleep(5 * time.Minute)
 		synctest.Wait()
